@@ -45,8 +45,26 @@ pub struct Sc {
     pub sample_cuts: Option<usize>,
     pub cut_seed: u64,
     /// Set by minimisation: explore this single crash point only.
-    pub only_state: Option<(usize, usize)>,
+    pub only_state: Option<CrashPoint>,
     pub hash_seed: u64,
+}
+
+#[derive(Clone, Debug, Serialize, Deserialize, PartialEq)]
+pub enum CrashPoint {
+    /// Kill: the first k journal operations happened, plus `cut` bytes of operation k if it is a write.
+    Prefix { k: usize, cut: usize },
+    /// Power loss: every namespace operation of the first k is durable, but of the data written
+    /// to `ino` since its last fsync only `keep` bytes reached the disk.
+    PowerLoss { k: usize, ino: u64, keep: usize },
+}
+
+impl CrashPoint {
+    fn materialise(&self, d0: &Disk, journal: &[Op]) -> Disk {
+        match self {
+            CrashPoint::Prefix { k, cut } => Disk::crash_state(d0, journal, *k, *cut),
+            CrashPoint::PowerLoss { k, ino, keep } => Disk::power_loss_state(d0, journal, *k, *ino, *keep),
+        }
+    }
 }
 
 pub fn generate(seed: u64, tier: Tier) -> Sc {
@@ -157,69 +175,138 @@ fn tail_dates(disk: &Disk) -> Vec<Date> {
     out
 }
 
-fn describe_cut(d0: &Disk, journal: &[Op], k: usize, cut: usize) -> (String, String) {
-    // (signature, description)
-    let before = Disk::crash_state(d0, journal, k, 0);
-    let name_of = |disk: &Disk, ino: u64| -> String { disk.names.iter().find(|(_, i)| **i == ino).map(|(p, _)| p.clone()).unwrap_or_else(|| format!("<unlinked ino {}>", ino)) };
-    let file_class = |p: &str| -> &'static str {
-        let base = p.rsplit('/').next().unwrap_or("");
-        if base.starts_with("rates-") && base.ends_with(".csv") && base.len() == "rates-2022.csv".len() {
-            "the live cache file"
-        } else {
-            "a temporary file"
-        }
-    };
-    if cut > 0 {
-        if let Some(Op::Write { ino, off, data }) = journal.get(k) {
-            let p = name_of(&before, *ino);
-            let after = Disk::crash_state(d0, journal, k, cut);
-            let content = after.inodes.get(ino).map(|i| i.data.clone()).unwrap_or_default();
-            let upto = (*off as usize + cut).min(content.len());
-            let text = String::from_utf8_lossy(&content[..upto]).to_string();
-            let last_line = text.rsplit('\n').next().unwrap_or("");
-            let pos = if last_line.is_empty() {
-                "at a row boundary"
-            } else if !last_line.contains(',') {
-                "inside a date field"
-            } else if last_line.ends_with(',') {
-                "between date and rate"
+fn file_class(p: &str) -> &'static str {
+    let base = p.rsplit('/').next().unwrap_or("");
+    if base.starts_with("rates-") && base.ends_with(".csv") && base.len() == "rates-2022.csv".len() {
+        "the live cache file"
+    } else {
+        "a temporary file"
+    }
+}
+
+fn name_of(disk: &Disk, ino: u64) -> String {
+    // Prefer the live name when an inode has several links.
+    let mut names: Vec<&String> = disk.names.iter().filter(|(_, i)| **i == ino).map(|(p, _)| p).collect();
+    names.sort_by_key(|p| if file_class(p) == "the live cache file" { 0 } else { 1 });
+    names.first().map(|p| p.to_string()).unwrap_or_else(|| format!("<unlinked ino {}>", ino))
+}
+
+fn cut_position(text: &str) -> &'static str {
+    let last_line = text.rsplit('\n').next().unwrap_or("");
+    if last_line.is_empty() {
+        "at a row boundary"
+    } else if !last_line.contains(',') {
+        "inside a date field"
+    } else if last_line.ends_with(',') {
+        "between date and rate"
+    } else {
+        "inside a rate field"
+    }
+}
+
+/// (signature, description) of a crash point. The description starts with the
+/// crash point as JSON so that minimisation can focus on it.
+fn describe_cut(d0: &Disk, journal: &[Op], cp: &CrashPoint) -> (String, String) {
+    let head = format!("crash point {}:", serde_json::to_string(cp).unwrap());
+    match cp {
+        CrashPoint::Prefix { k, cut } => {
+            let (k, cut) = (*k, *cut);
+            let before = Disk::crash_state(d0, journal, k, 0);
+            if cut > 0 {
+                if let Some(Op::Write { ino, off, data }) = journal.get(k) {
+                    let p = name_of(&before, *ino);
+                    let after = Disk::crash_state(d0, journal, k, cut);
+                    let content = after.inodes.get(ino).map(|i| i.data.clone()).unwrap_or_default();
+                    let upto = (*off as usize + cut).min(content.len());
+                    let text = String::from_utf8_lossy(&content[..upto]).to_string();
+                    let last_line = text.rsplit('\n').next().unwrap_or("").to_string();
+                    return (
+                        format!("crash during a write to {}, cut {}", file_class(&p), cut_position(&text)),
+                        format!("{} write #{} to {} interrupted after {} of {} bytes (file offset {}), last surviving line {:?}", head, k, p, cut, data.len(), off, last_line),
+                    );
+                }
+            }
+            let after_what = if k == 0 { "before the first operation".to_string() } else { format!("after {}", journal[k - 1].describe()) };
+            let kind = if k == 0 { "start".to_string() } else { journal[k - 1].kind().to_string() };
+            let target = if k == 0 {
+                "".to_string()
             } else {
-                "inside a rate field"
+                match &journal[k - 1] {
+                    Op::Truncate { ino, .. } | Op::Write { ino, .. } | Op::Fsync { ino } | Op::Close { ino } | Op::Chmod { ino, .. } => format!(" on {}", file_class(&name_of(&before, *ino))),
+                    Op::Create { path, .. } => format!(" of {}", file_class(path)),
+                    Op::Rename { to, .. } => format!(" onto {}", file_class(to)),
+                    _ => String::new(),
+                }
             };
-            return (
-                format!("crash during a write to {}, cut {}", file_class(&p), pos),
-                format!("crash point k={} cut={}: write #{} to {} interrupted after {} of {} bytes (file offset {}), last surviving line {:?}", k, cut, k, p, cut, data.len(), off, last_line),
-            );
+            (format!("crash at a step boundary: after {}{}", kind, target), format!("{} {}", head, after_what))
+        }
+        CrashPoint::PowerLoss { k, ino, keep } => {
+            let disk = Disk::power_loss_state(d0, journal, *k, *ino, *keep);
+            let p = name_of(&disk, *ino);
+            let content = disk.inodes.get(ino).map(|i| i.data.clone()).unwrap_or_default();
+            let text = String::from_utf8_lossy(&content).to_string();
+            let unsynced = Disk::unsynced_bytes(journal, *k, *ino);
+            let pos = if *keep == 0 { "lost entirely".to_string() } else { format!("cut {}", cut_position(&text)) };
+            let after = if *k == 0 { "start".to_string() } else { journal[*k - 1].kind().to_string() };
+            (
+                format!("power loss after {}: un-synced data of {} {}", after, file_class(&p), pos),
+                format!("{} power loss after {}: every name change so far is durable, but of the {} bytes written to {} since its last fsync only {} reached the disk; last surviving line {:?}", head, if *k == 0 { "nothing".to_string() } else { journal[*k - 1].describe() }, unsynced, p, keep, text.rsplit('\n').next().unwrap_or("")),
+            )
         }
     }
-    let after_what = if k == 0 { "before the first operation".to_string() } else { format!("after {}", journal[k - 1].describe()) };
-    let kind = if k == 0 { "start".to_string() } else { journal[k - 1].kind().to_string() };
-    let target = if k == 0 {
-        "".to_string()
-    } else {
-        match &journal[k - 1] {
-            Op::Truncate { ino, .. } | Op::Write { ino, .. } | Op::Fsync { ino } | Op::Close { ino } | Op::Chmod { ino, .. } => format!(" on {}", file_class(&name_of(&before, *ino))),
-            Op::Create { path, .. } => format!(" of {}", file_class(path)),
-            Op::Rename { to, .. } => format!(" onto {}", file_class(to)),
-            _ => String::new(),
-        }
-    };
-    (format!("crash at a step boundary: after {}{}", kind, target), format!("crash point k={} cut=0: {}", k, after_what))
 }
 
 pub struct C14;
 
 impl C14 {
-    fn crash_points(sc: &Sc, journal: &[Op], d0: &Disk) -> Vec<(usize, usize)> {
-        if let Some(p) = sc.only_state {
-            // A shrink candidate may have changed the journal: a crash point outside it explores nothing.
-            return if p.0 <= journal.len() { vec![p] } else { vec![] };
+    fn sample_offsets(r: &mut Rng, data: &[u8], per: usize) -> Vec<usize> {
+        let n = data.len();
+        let mut chosen: BTreeSet<usize> = BTreeSet::new();
+        if n <= 1 {
+            return vec![];
         }
-        let mut pts: Vec<(usize, usize)> = vec![];
+        if n - 1 <= per {
+            chosen.extend(1..n);
+        } else {
+            // bias: last three rows, first row, then uniform
+            let text = String::from_utf8_lossy(data);
+            let mut nl: Vec<usize> = text.match_indices('\n').map(|(i, _)| i).collect();
+            nl.reverse();
+            let tail_start = nl.get(3).copied().unwrap_or(0).max(1);
+            for c in tail_start..n {
+                if chosen.len() < per / 2 {
+                    chosen.insert(c);
+                }
+            }
+            let first_end = text.find('\n').unwrap_or(0).min(n - 1);
+            for c in 1..=first_end {
+                if chosen.len() < per * 2 / 3 {
+                    chosen.insert(c);
+                }
+            }
+            let mut guard = 0;
+            while chosen.len() < per && guard < per * 20 {
+                chosen.insert(r.range(1, n as i64 - 1) as usize);
+                guard += 1;
+            }
+        }
+        chosen.into_iter().collect()
+    }
+
+    fn crash_points(sc: &Sc, journal: &[Op]) -> Vec<CrashPoint> {
+        if let Some(p) = &sc.only_state {
+            // A shrink candidate may have changed the journal: a crash point outside it explores nothing.
+            let k = match p {
+                CrashPoint::Prefix { k, .. } | CrashPoint::PowerLoss { k, .. } => *k,
+            };
+            return if k <= journal.len() { vec![p.clone()] } else { vec![] };
+        }
+        let mut pts: Vec<CrashPoint> = vec![];
         for k in 0..=journal.len() {
-            pts.push((k, 0));
+            pts.push(CrashPoint::Prefix { k, cut: 0 });
         }
         let mut r = Rng::new(sc.cut_seed);
+        let writes = journal.iter().filter(|o| matches!(o, Op::Write { .. })).count().max(1);
         for (k, op) in journal.iter().enumerate() {
             if let Op::Write { data, .. } = op {
                 let n = data.len();
@@ -229,46 +316,55 @@ impl C14 {
                 match sc.sample_cuts {
                     None => {
                         for c in 1..n {
-                            pts.push((k, c));
+                            pts.push(CrashPoint::Prefix { k, cut: c });
                         }
                     }
                     Some(budget) => {
-                        let writes = journal.iter().filter(|o| matches!(o, Op::Write { .. })).count().max(1);
-                        let per = (budget / writes).max(8);
-                        let mut chosen: BTreeSet<usize> = BTreeSet::new();
-                        if n - 1 <= per {
-                            chosen.extend(1..n);
-                        } else {
-                            // bias: last three rows, first row, then uniform
-                            let text = String::from_utf8_lossy(data);
-                            let mut nl: Vec<usize> = text.match_indices('\n').map(|(i, _)| i).collect();
-                            nl.reverse();
-                            let tail_start = nl.get(3).copied().unwrap_or(0).max(1);
-                            for c in tail_start..n {
-                                if chosen.len() < per / 2 {
-                                    chosen.insert(c);
-                                }
-                            }
-                            let first_end = text.find('\n').unwrap_or(0).min(n - 1);
-                            for c in 1..=first_end {
-                                if chosen.len() < per * 2 / 3 {
-                                    chosen.insert(c);
-                                }
-                            }
-                            let mut guard = 0;
-                            while chosen.len() < per && guard < per * 20 {
-                                chosen.insert(r.range(1, n as i64 - 1) as usize);
-                                guard += 1;
-                            }
-                        }
-                        for c in chosen {
-                            pts.push((k, c));
+                        for c in C14::sample_offsets(&mut r, data, (budget / writes).max(8)) {
+                            pts.push(CrashPoint::Prefix { k, cut: c });
                         }
                     }
                 }
             }
         }
-        let _ = d0;
+        // Power loss: a name change (rename/link) or the end of the procedure is durable while
+        // data written since the file's last fsync is not.
+        for k in 1..=journal.len() {
+            let exposing = matches!(journal[k - 1], Op::Rename { .. } | Op::Link { .. }) || k == journal.len();
+            if !exposing {
+                continue;
+            }
+            let inos: BTreeSet<u64> = journal[..k].iter().filter_map(|o| if let Op::Write { ino, .. } = o { Some(*ino) } else { None }).collect();
+            for ino in inos {
+                let n = Disk::unsynced_bytes(journal, k, ino);
+                if n == 0 {
+                    continue;
+                }
+                pts.push(CrashPoint::PowerLoss { k, ino, keep: 0 });
+                // the un-synced bytes of this inode, concatenated, to choose cut offsets
+                let last_sync = journal[..k].iter().rposition(|o| matches!(o, Op::Fsync { ino: i } if *i == ino)).map(|i| i + 1).unwrap_or(0);
+                let mut bytes: Vec<u8> = vec![];
+                for o in &journal[last_sync..k] {
+                    if let Op::Write { ino: wi, data, .. } = o {
+                        if *wi == ino {
+                            bytes.extend_from_slice(data);
+                        }
+                    }
+                }
+                match sc.sample_cuts {
+                    None => {
+                        for c in 1..n {
+                            pts.push(CrashPoint::PowerLoss { k, ino, keep: c });
+                        }
+                    }
+                    Some(_) => {
+                        for c in C14::sample_offsets(&mut r, &bytes, 48) {
+                            pts.push(CrashPoint::PowerLoss { k, ino, keep: c });
+                        }
+                    }
+                }
+            }
+        }
         pts
     }
 }
@@ -347,16 +443,16 @@ impl Engine for C14 {
 
         let vtoday = pd(&sc.victim.today);
         let later = (vtoday + Duration::days(sc.later_day_offset)).min(boc.last_day() + Duration::days(1));
-        let points = C14::crash_points(sc, &journal, &d0);
+        let points = C14::crash_points(sc, &journal);
         let mut seen_disks: BTreeSet<u64> = BTreeSet::new();
-        for (k, cut) in points {
-            let disk = Disk::crash_state(&d0, &journal, k, cut);
+        for cp in points {
+            let disk = cp.materialise(&d0, &journal);
             let dg = disk.digest();
             st.bump("probe.crash_states");
-            if cut > 0 {
-                st.bump("fault.crash_inside_write");
-            } else {
-                st.bump(&format!("fault.crash_after_{}", if k == 0 { "nothing" } else { journal[k - 1].kind() }));
+            match &cp {
+                CrashPoint::Prefix { cut, .. } if *cut > 0 => st.bump("fault.crash_inside_write"),
+                CrashPoint::Prefix { k, .. } => st.bump(&format!("fault.crash_after_{}", if *k == 0 { "nothing" } else { journal[*k - 1].kind() })),
+                CrashPoint::PowerLoss { keep, .. } => st.bump(if *keep == 0 { "fault.power_loss_unsynced_data_lost" } else { "fault.power_loss_unsynced_data_cut" }),
             }
             if !seen_disks.insert(dg) {
                 st.bump("probe.crash_states_equal_to_an_earlier_one");
@@ -379,7 +475,7 @@ impl Engine for C14 {
                 dates.reverse();
             }
             with_world(|w| w.fs.disk = disk.clone());
-            let (sig, desc) = describe_cut(&d0, &journal, k, cut);
+            let (sig, desc) = describe_cut(&d0, &journal, &cp);
             for (phase, today, pt) in [("same day", vtoday, sc.victim.published_today), ("later day", later, sc.later_published_today)] {
                 let obs = run_fx_process(FxPlan {
                     data: boc.clone(),
@@ -486,12 +582,12 @@ impl Engine for C14 {
     }
 
     fn focus(&self, sc: &Sc, v: &Violation) -> Option<Sc> {
-        // detail starts with "crash point k=<k> cut=<cut>:"
-        let rest = v.detail.strip_prefix("crash point k=")?;
-        let (k, rest) = rest.split_once(" cut=")?;
-        let (cut, _) = rest.split_once(':')?;
+        // detail starts with "crash point <json>:"
+        let rest = v.detail.strip_prefix("crash point ")?;
+        let end = rest.find("}:")?;
+        let cp: CrashPoint = serde_json::from_str(&rest[..=end]).or_else(|_| serde_json::from_str(&rest[..=end + 1])).ok()?;
         let mut s = sc.clone();
-        s.only_state = Some((k.parse().ok()?, cut.parse().ok()?));
+        s.only_state = Some(cp);
         Some(s)
     }
 
@@ -505,14 +601,15 @@ impl Engine for C14 {
         "fault_enumeration"
     }
     fn rule(&self) -> String {
-        "Per seeded scenario (calendar, victim day in early January / December / mid-year so the year file is ~100 B, ~6 KiB or >8 KiB = two write calls, optional earlier complete run leaving an older file, legal short writes, a look-up that makes the process download - Jan 1-7 look-backs write two year files) the real download+cache-write path runs once, fault-free, while SimFs journals every operation. Fault space: every prefix of that journal = a crash after each operation (mkdir, chmod, create, truncate, each write, fsync, rename, close) and inside every write at byte offsets (thorough: all of them; quick: all operation boundaries + ~192 offsets biased to the last three rows and the first row). For each distinct surviving disk, two fresh simulated processes (same day; a later day) look up every date in the last three and the first surviving rows, the day after, today, the victim's date and two seeded dates. Oracle: each recovery look-up equals the look-up by the real code with no cache. evaluations = crash states explored; distinct_nontrivial = distinct surviving disks (digest of names + contents).".to_string()
+        "Per seeded scenario (calendar, victim day in early January / December / mid-year so the year file is ~100 B, ~6 KiB or >8 KiB = two write calls, optional earlier complete run leaving an older file, legal short writes, a look-up that makes the process download - Jan 1-7 look-backs write two year files) the real download+cache-write path runs once, fault-free, while SimFs journals every operation. Fault space: every prefix of that journal = a crash after each operation (mkdir, chmod, create, truncate, each write, fsync, rename, close) and inside every write at byte offsets (thorough: all of them; quick: all operation boundaries + ~192 offsets biased to the last three rows and the first row). Power loss adds, after every rename/link and at the end, states in which un-synced data of a file is lost entirely or cut (thorough: every offset; quick: 48 biased offsets). For each distinct surviving disk, two fresh simulated processes (same day; a later day) look up every date in the last three and the first surviving rows, the day after, today, the victim's date and two seeded dates. Oracle: each recovery look-up equals the look-up by the real code with no cache. evaluations = crash states explored; distinct_nontrivial = distinct surviving disks (digest of names + contents).".to_string()
     }
     fn state_measure(&self) -> String {
         "distinct (crash position class: step boundary kind + target, or write target + cut position within the row; older file present) pairs".to_string()
     }
     fn assumptions(&self) -> Vec<String> {
         vec![
-            "crash model for alarms: the surviving disk is the result of a prefix of the process's file-system operations in program order, the last write possibly cut at any byte (exactly the quantifier of C14); reordering of unsynced data against metadata by a power loss is outside the alarm model".to_string(),
+            "kill model: the surviving disk is the result of a prefix of the process's file-system operations in program order, the last write possibly cut at any byte (the quantifier of C14)".to_string(),
+            "power-loss model ('or the machine loses power'): after a rename/link or at the end of the procedure every name change is durable while, of the data written to a file since its last fsync, only a prefix (possibly nothing) reached the disk; data covered by an fsync is never lost; other reorderings (e.g. a lost rename) only yield states the kill model already contains".to_string(),
             "recovery runs see a healthy server whose snapshot contains every rate published before their today".to_string(),
             "the no-cache reference is the real code itself".to_string(),
         ]
